@@ -21,6 +21,62 @@ pub struct SolveCase {
     pub objective: Term,
     pub maximise: bool,
     pub assumptions: Vec<Pred>,
+    /// large models (hundreds of variables) cannot be enumerated: they are built around this assignment and
+    /// judged by certificate (the verdict must not be Unsatisfiable, a returned solution is evaluated)
+    #[serde(default)]
+    pub witness: Option<Vec<i32>>,
+}
+
+/// A model with a long implication chain: 500-720 0-1 variables with x_i <= x_{i+1}, a planted monotone
+/// assignment, and a few dozen clauses / small linear constraints which the planted assignment satisfies.
+/// Code which depends on the length of implication chains or on the number of variables (depth caps of
+/// recursive procedures, activity rescaling, trail growth) is out of reach of the 8-variable models.
+pub fn build_chain_model(raw: &[(u16, u8, u16)], extra: (u16, i8, i8)) -> (Model, Vec<i32>) {
+    let n = 500 + (extra.0 as usize % 220);
+    let threshold = (extra.0 as usize / 7) % (n + 1);
+    let witness: Vec<i32> = (0..n).map(|i| (i >= threshold) as i32).collect();
+    let vars: Vec<VarDecl> = (0..n).map(|_| VarDecl::Interval { lb: 0, ub: 1 }).collect();
+    let mut cons: Vec<Posted> = (0..n - 1).map(|i| Posted::plain(Cons::BinLe { a: Term::plain(i), b: Term::plain(i + 1) })).collect();
+    // entropy for the cross constraints: a simple congruential stream seeded by the raw values
+    let mut state: u64 = raw.iter().fold(0x9E37_79B9_7F4A_7C15 ^ extra.0 as u64, |acc, r| acc.wrapping_mul(6364136223846793005).wrapping_add(r.0 as u64 * 65537 + r.1 as u64 * 257 + r.2 as u64));
+    let mut next = |m: usize| {
+        state = state.wrapping_mul(6364136223846793005).wrapping_add(1442695040888963407);
+        ((state >> 33) as usize) % m.max(1)
+    };
+    let k = 10 + next(50);
+    for _ in 0..k {
+        match next(3) {
+            0 | 1 => {
+                // a clause of 2-3 bound predicates, made true under the planted assignment
+                let len = 2 + next(2);
+                let mut preds: Vec<Pred> = (0..len)
+                    .map(|_| {
+                        let var = next(n);
+                        if next(2) == 0 { Pred { var, kind: PKind::Ge, val: 1 } } else { Pred { var, kind: PKind::Le, val: 0 } }
+                    })
+                    .collect();
+                if !preds.iter().any(|p| p.holds(witness[p.var] as i64)) {
+                    let p = &mut preds[0];
+                    *p = if witness[p.var] == 1 { Pred { var: p.var, kind: PKind::Ge, val: 1 } } else { Pred { var: p.var, kind: PKind::Le, val: 0 } };
+                }
+                cons.push(Posted::plain(Cons::PredClause { preds }));
+            }
+            _ => {
+                // x_a + x_b (+ x_c) <= planted sum (+ slack)
+                let len = 2 + next(2);
+                let mut vs: Vec<usize> = vec![];
+                while vs.len() < len {
+                    let v = next(n);
+                    if !vs.contains(&v) {
+                        vs.push(v);
+                    }
+                }
+                let lhs: i32 = vs.iter().map(|v| witness[*v]).sum();
+                cons.push(Posted::plain(Cons::LinLe { terms: vs.iter().map(|v| Term::plain(*v)).collect(), rhs: lhs + next(2) as i32 }));
+            }
+        }
+    }
+    (Model { vars, cons }, witness)
 }
 
 pub static EXCLUDED_NOLEARN_ASSUMPTIONS: std::sync::atomic::AtomicU64 = std::sync::atomic::AtomicU64::new(0);
@@ -83,9 +139,14 @@ pub fn solve_case_strategy(p: &GenParams, paths: &'static [u8]) -> BoxedStrategy
                 cfg.no_learning = false;
                 EXCLUDED_NOLEARN_ASSUMPTIONS.fetch_add(1, std::sync::atomic::Ordering::Relaxed);
             }
+            if ex.0 == 255 {
+                // one case in 256: a long-chain model judged by certificate
+                let (model, witness) = build_chain_model(&ex.3, ex.1);
+                return SolveCase { model, cfg, path: 0, objective: Term::plain(0), maximise: false, assumptions: vec![], witness: Some(witness) };
+            }
             let objective = build_objective(&model, &ex.1);
             let assumptions = build_assumptions(&model, &ex.3);
-            SolveCase { model, cfg, path, objective, maximise: ex.2, assumptions }
+            SolveCase { model, cfg, path, objective, maximise: ex.2, assumptions, witness: None }
         })
         .boxed()
 }
@@ -243,6 +304,33 @@ impl Property for SolveProp {
         config_classes(&case.cfg, &mut out.classes);
         out.classes.push(format!("path:{}", case.path));
 
+        if let Some(w) = &case.witness {
+            // certificate mode for models which are too large to enumerate
+            out.classes.push("large_planted".into());
+            if !sem::is_solution(m, w) {
+                panic!("harness: the planted assignment does not satisfy the large model");
+            }
+            let mut b = Built::from_model(m, &case.cfg, None);
+            if b.infeasible_at_post() {
+                return Err(Failure::new("wrong:post-error-but-satisfiable", format!("posting constraint #{} of the long-chain model failed although the planted assignment satisfies the model", b.post_ok.iter().position(|x| !x).unwrap())));
+            }
+            let mut br = b.brancher(&case.cfg.brancher);
+            let mut t = CountingTermination::budget(BUDGET);
+            match satisfy(&mut b, &mut br, &mut t) {
+                SatRes::Sat(a) => {
+                    if let Some(why) = sem::first_violation(m, &a) {
+                        return Err(Failure::new("invalid:solution-from-satisfy", format!("the solution of the long-chain model is not a solution: {}", why)));
+                    }
+                }
+                SatRes::Unsat => return Err(Failure::new("wrong:unsat-but-sat", "Unsatisfiable but the planted assignment satisfies the long-chain model")),
+                SatRes::Unknown => out.inconclusive = true,
+            }
+            if br.stats.conflicts > 0 {
+                out.classes.push("large_planted:had_conflict".into());
+                out.nontrivial = Some(hash_of(&(m, &case.cfg)));
+            }
+            return Ok(out);
+        }
         let limit = 2_000_000;
         let sols = sem::solutions(m, limit).expect("harness: reference enumeration exceeded its limit");
         out.classes.push(match sols.len() {
